@@ -662,7 +662,10 @@ def readmetxt(ra):
 
 def dimensionstxt(ra, firstnmax=5):
     end = min(len(ra), firstnmax)
-    lengths = np.diff(ra._indices[:end], axis=-1).flatten()
+    # read through a fresh handle: the one of `ra` may be held open by an
+    # enclosing context, with the shape the file had when it was opened
+    indices = Array(ra._indices.path)
+    lengths = np.diff(indices[:end], axis=-1).flatten()
     if len(ra.atom) > 0:
         astr = str(ra.atom)[1:-1] + ')'
     else:
@@ -673,7 +676,7 @@ def dimensionstxt(ra, firstnmax=5):
     if len(ra) > (firstnmax + 1):
         lines.append('    ...')
     if len(ra) > firstnmax:
-        lastdiff = np.diff(ra._indices[-1], axis=-1)[0]
+        lastdiff = np.diff(indices[-1], axis=-1)[0]
         lines.append(f'    {len(ra)-1}: ({lastdiff}, {astr}')
     return '\n'.join(lines)
 
